@@ -132,6 +132,10 @@ def run(rep: Report, tier: str) -> None:
         ev, raw = fnlog.events_for_cfg(cid, cfg, True, False, classes, draws=((0, 0), (1, 0), (0, 0)))
         events += ev
         rep.case((cfg["op"], json.dumps(cfg, sort_keys=True, default=str)), nontrivial=cfg["op"] not in ops.EXACT1 or True)
+    hist_ev = fnlog.other_history_events(cfgs, True, False, classes) if tier == "quick" else []
+    events += hist_ev
+    events.sort(key=lambda e: e[2])     # stable: per configuration id, this process's events first, then the other history's
+    rep.extra["events_from_the_reverse_order_history"] = len(hist_ev)
     eev, ecfgs = fnlog.error_events(len(cfgs) + 1, rng)
     for i, c in enumerate(ecfgs):
         cfg_of[len(cfgs) + 1 + i] = c
